@@ -1,6 +1,7 @@
 package main
 
 import (
+	"strings"
 	"bytes"
 	"crypto/hmac"
 	"crypto/sha256"
@@ -179,7 +180,13 @@ func evalSetGet(c *Ctx, prior *SX, ty int, v []byte, viaWire bool) error {
 	var got []byte
 	impl := run(func() string {
 		a := goEapData(prior).(*eap.EapAkaPrime)
+		before, _ := (&eap.EAP{Code: 1, Identifier: 7, EapTypeData: a}).Marshal()
 		if err := a.SetAttr(eap.EapAkaPrimeAttrType(ty), v); err != nil {
+			// a refused offer must leave the packet as it was (the attribute already present keeps its value and framing)
+			after, _ := (&eap.EAP{Code: 1, Identifier: 7, EapTypeData: a}).Marshal()
+			if !bytes.Equal(before, after) {
+				return "(refused-but-altered " + hx(before) + " " + hx(after) + ")"
+			}
 			return "err"
 		}
 		g, err := a.GetAttr(eap.EapAkaPrimeAttrType(ty))
@@ -212,7 +219,9 @@ func evalSetGet(c *Ctx, prior *SX, ty int, v []byte, viaWire bool) error {
 	}
 	fail := func(what, exp, obs string) { r.Add(Finding{Kind: "instance", What: what, Case: cs, Expected: exp, Observed: obs}) }
 	if !accept {
-		if impl != "err" {
+		if strings.HasPrefix(impl, "(refused-but-altered") {
+			fail("a refused SetAttr alters the packet it was offered to", "err (packet unchanged)", impl)
+		} else if impl != "err" {
 			fail("the setter accepts a value of a wrong size / an unsupported attribute", "err", impl)
 		}
 		return nil
@@ -282,6 +291,18 @@ func runC14(c *Ctx) error {
 			prior := L(A("aka"), Nn(1))
 			if sz%3 == 0 {
 				prior = genAka(rng)
+			}
+			if vl, ok := map[int]int{1: 16, 2: 16, 11: 16, 24: 2, 3: 8, 23: 10, 134: 20}[ty]; ok && sz%2 == 0 {
+				// the attribute is already present with a valid value: an overwrite, or a refused offer that must leave it alone
+				has := false
+				for _, at := range prior.Tail(2) {
+					if int(at.U(1)) == ty {
+						has = true
+					}
+				}
+				if !has {
+					prior.Add(L(A("at"), Nn(uint64(ty)), Hx(rng.Bytes(vl))))
+				}
 			}
 			if err := evalSetGet(c, prior, ty, rng.Bytes(sz), ty == 3 || ty == 23 || ty == 134 || sz == 16 || sz == 2); err != nil {
 				return err
